@@ -41,7 +41,7 @@ Section Addr.
     destruct (aget id (s_nodes s)) as [n|] eqn:En; [|exact Had].
     destruct ((n_exp n <? e) && (n_exp n + debond <? e)); [|exact Had].
     pose proof (Hids _ _ En) as Hid. intros a id'. unfold remove_node;
-      cbn [s_addr s_nodes with_nthr with_claims with_nodes with_byent with_addr with_keymap].
+      cbn [s_addr s_nodes with_status with_nthr with_claims with_nodes with_byent with_addr with_keymap].
     rewrite Hid, !aget_adel_gen. split.
     - destruct (N.eqb_spec (addr (n_cons n)) a) as [Ea|Hna]; [discriminate|].
       intros H. apply Had in H as [m [Hm Ha]]. exists m. split; [|exact Ha].
@@ -73,7 +73,7 @@ Section Addr.
         [right; exists x, (n_cons n); auto|left].
       cbn [snd]. match goal with |- AD_ok addr (fold_left resume_one ?l ?s0) => use_core l s0 end.
       intros a id'. rewrite HCaddr, HCnodes.
-      cbn [set_node s_addr s_nodes with_nthr with_claims with_nodes with_byent with_addr with_keymap].
+      cbn [set_node s_addr s_nodes with_status with_nthr with_claims with_nodes with_byent with_addr with_keymap].
       assert (Hops : kapply_all (addr_ops addr (aget (n_id n) (s_nodes s)) n) (s_addr s)
                      = aset (addr (n_cons n)) (n_id n) (s_addr s)).
       { unfold addr_ops. destruct (aget (n_id n) (s_nodes s)) as [old|] eqn:Eo; [|reflexivity].
@@ -95,10 +95,15 @@ Section Addr.
           unfold dup_subkey, node_by_subkey in Hdup. rewrite Hk, Hm in Hdup.
           apply negb_false_iff in Hdup. apply N.eqb_eq in Hdup.
           pose proof (Hids _ _ Hm). congruence.
-    - left. cbn [snd]. unfold epoch_change. apply epoch_fold_ad; assumption.
+    - left. cbn [snd]. unfold epoch_change.
+      use_mark e (sorted_ids s) (with_epoch s e). apply epoch_fold_ad.
+      + apply inv_index_mark. exact Hinv.
+      + intros a id'. rewrite HMaddr, HMnodes. apply Had.
     - left. destruct (reg_runtime_check s caller rt); try exact Had. cbn [snd].
       use_ncore s rt. intros a id'. rewrite HNaddr, HNnodes. apply Had.
     - left. destruct (aget r (s_rts s)); exact Had.
+    - left. status_ops Had.
+    - left. status_ops Had.
   Qed.
 
   Lemma run_ad ops : forall s, Inv_index s -> AD_ok addr s -> forallb tx_op ops = true ->
@@ -161,16 +166,16 @@ Proof.
   destruct (exchange_loses_key old n Hdup Hx) as [k [Hk Hl]].
   cbn [snd] in Hinv'.
   assert (F : node_by_subkey (fold_left resume_one (n_rts n)
-                 (with_nthr (set_node addr false (aget (n_id n) (s_nodes s)) n
+                 (with_status (with_nthr (set_node addr false (aget (n_id n) (s_nodes s)) n
                     (with_claims s (padd (n_ent n, n_id n + 1) (s_claims s))))
-                    (aset (n_id n) (node_kinds n) (s_nthr s)))) k = Some n).
+                    (aset (n_id n) (node_kinds n) (s_nthr s))) (reg_status s n))) k = Some n).
   { apply (found_under_each_key _ (n_id n)); [exact Hinv'| |exact Hk].
     match goal with |- context [fold_left resume_one ?l ?s0] => use_core l s0 end.
-    rewrite HCnodes. cbn [set_node s_nodes with_nthr with_claims with_nodes with_byent with_addr with_keymap].
+    rewrite HCnodes. cbn [set_node s_nodes with_status with_nthr with_claims with_nodes with_byent with_addr with_keymap].
     apply aget_aset_same. }
   unfold node_by_subkey in F.
   match type of F with context [fold_left resume_one ?l ?s0] => use_core l s0 end.
   rewrite HCkeymap in F.
-  cbn [set_node s_keymap with_nthr with_claims with_nodes with_byent with_addr with_keymap] in F.
+  cbn [set_node s_keymap with_status with_nthr with_claims with_nodes with_byent with_addr with_keymap] in F.
   rewrite aget_kapply_all, Hold, Hl in F. discriminate.
 Qed.
